@@ -221,7 +221,7 @@ func (l *Lexer) scanAccount() Token {
 		}
 
 		l.pos += size
-		l.column++
+		l.column += columnWidth(r)
 		lastNonSpace = l.pos
 	}
 
@@ -287,7 +287,7 @@ func (l *Lexer) scanCurrencySymbol() Token {
 	startPos := l.position()
 	r, size := utf8.DecodeRuneInString(l.input[l.pos:])
 	l.pos += size
-	l.column++
+	l.column += columnWidth(r)
 	return Token{Type: TokenCommodity, Value: string(r), Pos: startPos, End: l.position()}
 }
 
@@ -475,10 +475,20 @@ func (l *Lexer) peekRune() rune {
 
 func (l *Lexer) advance() {
 	if l.pos < len(l.input) {
-		_, size := utf8.DecodeRuneInString(l.input[l.pos:])
+		r, size := utf8.DecodeRuneInString(l.input[l.pos:])
 		l.pos += size
-		l.column++
+		l.column += columnWidth(r)
 	}
+}
+
+// columnWidth is the number of columns a character takes. Columns are what the
+// language server protocol counts: UTF-16 code units, two for a character
+// outside the basic multilingual plane.
+func columnWidth(r rune) int {
+	if r >= 0x10000 {
+		return 2
+	}
+	return 1
 }
 
 func (l *Lexer) skipSpaces() {
